@@ -275,6 +275,37 @@ class Store:
         else:
             go()
 
+    def register_with_write_fault(self, i, worker):
+        '''a registration during which one write to a catalogue table fails
+        (disk full): the error surfaces, the caller retries'''
+        import shelve
+
+        real = shelve.Shelf.__setitem__
+        armed = [1]
+        hit = [0]
+
+        def setitem(shelf, key, value):
+            if armed[0] and not str(key).startswith('('):
+                armed[0] = 0
+                hit[0] = 1
+                raise OSError(28, 'No space left on device (injected)')
+            return real(shelf, key, value)
+
+        shelve.Shelf.__setitem__ = setitem
+        try:
+            try:
+                self.register(i, worker)
+            except OSError:
+                pass
+        finally:
+            shelve.Shelf.__setitem__ = real
+            from dawgie.db.shelve.state import DBI
+
+            DBI()._DBI__reopened = False
+        if hit[0]:
+            self.register(i, worker)  # the retry
+        return bool(hit[0])
+
     # ---- operations (foreman side)
 
     def remove(self, run, t, i, j, k):
